@@ -824,10 +824,6 @@ func historyCases(seed int64, hi int, workDir string, pool *ltxPool, thorough bo
 		}
 	}
 
-	if faultOnly {
-		return rs, nil
-	}
-
 	// any one segment removed
 	for gi := range h.gens {
 		g := &h.gens[gi]
@@ -856,7 +852,9 @@ func historyCases(seed int64, hi int, workDir string, pool *ltxPool, thorough bo
 			rs.define("l", h.layoutSx(gi, si))
 			emit(gi, si, 0, class+"/latest")
 			ts := []int64{s.tick, h.maxTick + 1}
-			if thorough {
+			if faultOnly {
+				ts = nil // C10 on the legacy path: a missing object, latest restore only
+			} else if thorough {
 				ts = nil
 				for T := s.tick - 1; T <= h.maxTick+1; T++ {
 					if T >= 1 {
@@ -876,7 +874,7 @@ func historyCases(seed int64, hi int, workDir string, pool *ltxPool, thorough bo
 	}
 
 	// combined with a current-format replica: which format does Restore use?
-	if pool != nil {
+	if pool != nil && !faultOnly {
 		nv := 2
 		if thorough {
 			nv = 6
